@@ -762,7 +762,7 @@ def wrapper_profile(op):
     ok_sub = ("base", "sum", "chol") if kind == "batchRepeat" else ("base", "sum")
     if len(subs) != 1 or model_profile(subs[0]) not in ok_sub:
         return None
-    if kind == "constMul" and not bool(torch.all(op._constant >= 0)):
+    if kind == "constMul" and not bool(torch.all(op._constant > 0)):
         return None
     return kind, [(model_profile(x), x.shape[-1]) for x in subs]
 
